@@ -119,7 +119,7 @@ def classify(cfg, snap, failures, out):
 
 
 def configs(tier):
-    top = 6 if tier == "quick" else 8
+    top = 6 if tier == "quick" else 10
     cfgs = [{"n": k} for k in range(0, top + 1)]
     cfgs.append({"n": 4, "unpaired": [1, 2]})
     cfgs.append({"n": 3, "bound": 2})
@@ -137,7 +137,7 @@ def units(prop):
         functions=["src.alignment.segments_factory:AlignmentSegmentsFactory.getSegments",
                    "src.alignment.segments_factory:_AlignmentSegmentBuilder",
                    "src.alignment.segments:AlignmentSegment.create"],
-        bounds="n scored positions, n = 0..6 (quick) / 0..8 (thorough); every score, minScore > 0 and "
+        bounds="n scored positions, n = 0..6 (quick) / 0..10 (thorough, n = 10 under the wall-clock budget); every score, minScore > 0 and "
                "breakSegmentThreshold >= 0 are unbounded symbolic reals; one extra configuration with 3 positions and all values in [-2, 2] "
                "(there, code that asks for a machine number is enumerated by realisation instead of becoming inconclusive)",
         nontrivial_rule="path returns >= 1 non-empty segment, or returns the empty result for a list of >= 2 positions",
